@@ -113,6 +113,11 @@ def judge(ctx, case: Dict[str, Any], o: Dict[str, Any], remeasure) -> None:
                 ctx.violation(mech, f"child pid {pid} is in state {st!r} 0.3 s after the context was left "
                               f"(exit took {o.get('exit_duration')})", case, o)
             shape.append(st)
+        for pid, st in (o.get("states_at_exit") or {}).items():
+            if st is not None and (o.get("states") or {}).get(pid) is None:
+                # gone 0.3 s later only because the event loop kept running and its child watcher reaped it
+                ctx.violation("child_unreaped_when_context_left", f"child pid {pid} was in state {st!r} at the moment the "
+                              f"context was left (only reaped later by the loop's child watcher)", case, o)
         if not o.get("pids"):
             ctx.violation("no_child_spawned", "no process was spawned", case)
     # fds
